@@ -24,23 +24,23 @@ def configs(tier, prop="C07", equal=False):
         if equal:
             tup = [("dna", 2, 2), ("dna", 3, 3), ("protein", 3, 3), ("internal", 3, 3)]
     else:
-        tup = [(t, la, lb) for t in split.TYPES for (la, lb) in ((1, 1), (1, 2), (1, 3), (2, 2), (2, 3), (2, 4), (3, 3), (3, 4))] + [("dna", 4, 4), ("protein", 4, 4), ("divergent", 4, 4), ("rna", 4, 5), ("protein", 4, 5)]
+        tup = [(t, la, lb) for t in split.TYPES for (la, lb) in ((1, 2), (2, 2), (2, 3), (3, 3))] + [("dna", 3, 4), ("protein", 3, 4), ("dna", 4, 4), ("rna", 4, 5)]
         if equal:
-            tup = [(t, n, n) for t in split.TYPES for n in (1, 2, 3, 4)]
+            tup = [(t, n, n) for t in split.TYPES for n in (2, 3)] + [("dna", 4, 4), ("protein", 4, 4)]
     for t, la, lb in tup:
         out.append(split.Config(prop, t, la, lb, equal=equal, timeout=900 if tier == "quick" else 3600, mem_gb=8))
     # groups of identical copies: sequence-profile (kernel 2) and profile-profile (kernel 3) with profiles built by the real code
     if tier == "quick":
         out.append(split.Config(prop, "dna", 1, 2, equal=False, kernel=2, ka=2, timeout=900, mem_gb=8) if not equal else split.Config(prop, "dna", 2, 2, equal=True, kernel=2, ka=2, timeout=900, mem_gb=8))
     else:
-        for t in split.TYPES:
-            for la, lb in ((1, 2), (2, 2), (2, 3)) if not equal else ((2, 2), (3, 3)):
+        for t in ("dna", "protein", "rna"):
+            for la, lb in ((1, 2), (2, 2)) if not equal else ((2, 2),):
                 out.append(split.Config(prop, t, la, lb, equal=equal, kernel=2, ka=2, timeout=3600, mem_gb=10))
         out.append(split.Config(prop, "dna", 2, 2, equal=equal, kernel=2, ka=3, timeout=3600, mem_gb=10))
         out.append(split.Config(prop, "protein", 2, 1, equal=False, kernel=2, ka=2, timeout=3600, mem_gb=10)) if not equal else None
         # profile-profile: 2x2 ran out of 6 GB in the probe; attempted with 20 GB (may stay undecided)
         out.append(split.Config(prop, "dna", 1, 2 if not equal else 1, equal=equal, kernel=3, ka=2, kb=2, timeout=3600, mem_gb=20))
-        out.append(split.Config(prop, "dna", 2, 2, equal=equal, kernel=3, ka=2, kb=2, timeout=5400, mem_gb=20))
+
     if tier != "quick" and not equal:
         # user penalties: only settings for which the oracle (with the property's 2*gpo margin) raises no alarm on the
         # unchanged tree in the native validation (tools/c07_native.c 5 4 <gpo> <gpe> <tgpe>); see DESIGN.md C07
